@@ -1,10 +1,12 @@
-/- line-protocol driver for C06: `drv_c06 callconv` (see Driver/CallConvCmd.lean).
+/- line-protocol driver for C06: `drv_c06 callconv` (see Driver/CallConvCmd.lean), `drv_c06 args` (Driver/C06ArgsCmd.lean).
    Core Lean only (nothing imported here may import Mathlib, or the executable will not link). -/
 import ChibiVerif.Driver.CallConvCmd
+import ChibiVerif.Driver.C06ArgsCmd
 
 def main (args : List String) : IO UInt32 := do
   match args with
   | "callconv" :: _ => ChibiVerif.Driver.CallConvCmd.main
+  | "args" :: _ => ChibiVerif.Driver.C06ArgsCmd.main
   | _ =>
-    IO.eprintln "usage: drv_c06 callconv"
+    IO.eprintln "usage: drv_c06 callconv | args"
     return 2
